@@ -375,7 +375,25 @@ class DateTimeFormatInfo(metaclass=_CombinedMeta):
         if calendar is None:
             raise ValueError("Calendar cannot be None")
         if calendar != self.__calendar:
-            # TODO: There is a bunch of other stuff that happens here...
+            # As in .NET: everything cached for the previous calendar is calendar-dependent and must be
+            # looked up again (the am/pm designators, the time separator and the time patterns are not).
+            self.__m_era_names = None
+            self.__month_day_pattern = None
+            self.__day_names = None
+            self.__abbreviated_day_names = None
+            self.__month_names = None
+            self.__abbreviated_month_names = None
+            self.__genitive_month_names = None
+            self.__m_genitive_abbreviated_month_names = None
+            self.__all_short_date_patterns = None
+            self.__all_long_date_patterns = None
+            self.__date_time_offset_pattern = None
+            self.__long_date_pattern = None
+            self.__short_date_pattern = None
+            self.__full_date_time_pattern = None
+            self.__general_short_time_pattern = None
+            self.__general_long_time_pattern = None
+            self.__date_separator = None
             self.__calendar = calendar
 
     @property
